@@ -84,7 +84,9 @@ func (e *Engine) CheckRelationTuple(ctx context.Context, r *relationTuple, restD
 		restDepth = globalMaxDepth
 	}
 
-	resultCh := make(chan checkgroup.Result)
+	// Buffered, so that the goroutine can deliver its result and exit even if we
+	// already returned because the context is done.
+	resultCh := make(chan checkgroup.Result, 1)
 	go e.checkIsAllowed(ctx, r, restDepth, false)(ctx, resultCh)
 	select {
 	case result := <-resultCh:
